@@ -1,4 +1,15 @@
 // Package c09 decides the structural clauses of property C09 (pipe).
+//
+// The wake-up, wait, ordering and close rules (R2..R5, parts of R6) are stated
+// over the traces of the anchored functions produced by the path engine of
+// package ring (ring.RunSym): every path through the function with its
+// same-package helpers inlined, each with the facts established on it and the
+// events it performs (calls on p.store, Signal/Wait on a condition, field
+// reads and stores, the returned values). A rule therefore reads like the
+// clause it checks ("on every trace that sleeps, the store was tried before,
+// returned nothing, and the peer's error was nil") and does not depend on how
+// the code spells it: guard clauses, if/else, switch, helpers (also with
+// pointer parameters), named results, boolean locals, defer.
 package c09
 
 import (
@@ -6,13 +17,10 @@ import (
 	"go/ast"
 	"go/token"
 	"go/types"
+	"sort"
 
-	"golang.org/x/tools/go/cfg"
-
-	"rscheck/cfgq"
 	"rscheck/core"
 	"rscheck/driver"
-	"rscheck/pat"
 	"rscheck/rules/ring"
 )
 
@@ -33,21 +41,20 @@ var Def = driver.PropDef{
 	Run:        Run,
 }
 
-var theCtx *core.Ctx
-
 func Run(c *core.Ctx) {
-	theCtx = c
 	pk := c.Pkg(pkg)
 	if pk == nil {
 		c.Undecidedf("anchor", pkg, token.NoPos, "package not loaded")
 		return
 	}
-	info := pk.TypesInfo
 
 	// ---- R1 guard table
-	n := ring.GuardTable(c, "R1.guard", pkg, "pipe", "mu", []string{"rerr", "werr", "store", "rwait", "wwait"})
-	if n < 30 {
-		c.Undecidedf("instances", "R1.guard", token.NoPos, "only %d guarded accesses found, 30+ confirmed by hand", n)
+	guarded := []string{"rerr", "werr", "store", "rwait", "wwait"}
+	n, perField := ring.GuardTable(c, "R1.guard", pkg, "pipe", "mu", guarded)
+	for _, f := range guarded {
+		if perField[f] < 2 {
+			c.Undecidedf("instances", "R1.guard", token.NoPos, "only %d guarded accesses to pipe.%s found (%d in total): every guarded field is read and written by the pipe's operations", perField[f], f, n)
+		}
 	}
 	ring.CondOver(c, "R1.cond", pkg, "pipe", "rwait", "mu")
 	ring.CondOver(c, "R1.cond", pkg, "pipe", "wwait", "mu")
@@ -59,9 +66,11 @@ func Run(c *core.Ctx) {
 	if readSome == nil || writeSome == nil {
 		return
 	}
+	rs := ring.RunSym(c, readSome, &ring.Sym{})
+	ws := ring.RunSym(c, writeSome, &ring.Sym{})
 	// which condition does each side wait on?
-	rw := waitCond(c, readSome)
-	ww := waitCond(c, writeSome)
+	rw := waitCond(c, readSome, rs)
+	ww := waitCond(c, writeSome, ws)
 	if rw == "" || ww == "" {
 		return
 	}
@@ -69,37 +78,17 @@ func Run(c *core.Ctx) {
 		fmt.Sprintf("reader waits on %q, writer waits on %q: the two sides must sleep on different conditions", rw, ww))
 
 	// ---- R2 wake on progress / R4 wait shape / R5 ordering
-	side(c, readSome, "readSome", rw, ww, "werr")
-	side(c, writeSome, "writeSome", ww, rw, "rerr")
-
-	// R5 reader: rerr test dominates everything; werr is returned only after the store was seen empty
-	r5read(c, readSome)
-	r5write(c, writeSome)
+	side(c, readSome, rs, "readSome", rw, ww, "werr")
+	side(c, writeSome, ws, "writeSome", ww, rw, "rerr")
+	r5read(c, readSome, rs)
+	r5write(c, writeSome, ws)
 
 	// ---- R3 close
 	closeRule(c, "RClose", "rerr", "rclose", "ErrClosedPipe", rw, ww)
 	closeRule(c, "WClose", "werr", "wclose", "EOF", rw, ww)
 
-	// Wait sites anywhere else in the package
-	for _, b := range ring.Bodies(c, pkg) {
-		if b.Lit == nil && (b.Decl == readSome.Decl || b.Decl == writeSome.Decl) {
-			continue
-		}
-		var root ast.Node = b.Decl.Body
-		if b.Lit != nil {
-			root = b.Lit
-		} else {
-			// literals are visited on their own
-		}
-		core.Inspect(root, func(m ast.Node) bool {
-			if call, ok := m.(*ast.CallExpr); ok {
-				if f := core.CalleeFunc(info, call); f != nil && f.Name() == "Wait" && core.NamedTypePath(recvType(f)) == "sync.Cond" {
-					c.Failf("R4.wait", "extra-wait/"+b.Name, call.Pos(), "sync.Cond.Wait outside readSome/writeSome: a sleeper that the progress/close wake-ups do not cover")
-				}
-			}
-			return true
-		})
-	}
+	// Wait sites that are not part of readSome / writeSome (helpers they call count as theirs)
+	extraWaits(c, rs, ws)
 
 	// ---- R6 siblings, R7 ring index
 	siblings(c)
@@ -113,141 +102,172 @@ func Run(c *core.Ctx) {
 	})
 }
 
-func recvType(f *types.Func) types.Type {
-	sig, _ := f.Type().(*types.Signature)
-	if sig == nil || sig.Recv() == nil {
-		return nil
-	}
-	return sig.Recv().Type()
+// fieldVar finds field `name` of struct type typ of the package.
+func fieldVar(c *core.Ctx, typ, name string) *types.Var {
+	return ring.FieldVar(c, pkg, typ, name)
 }
 
-// condCall: node executes <base>.<cond>.<method>() on a sync.Cond field of pipe; returns the field name.
-func condCalls(info *types.Info, n ast.Node, methods ...string) []string {
-	return ring.CondOps(theCtx, info, n, methods...)
-}
-
-func has(list []string, s string) bool {
-	for _, x := range list {
-		if x == s {
-			return true
-		}
-	}
-	return false
-}
-
-func waitCond(c *core.Ctx, fn *core.Fn) string {
-	info := fn.Pkg.TypesInfo
-	g := cfgq.Of(c.Program, fn)
-	var conds []string
-	for _, p := range g.Points(func(n ast.Node) bool { return len(condCalls(info, n, "Wait")) > 0 }) {
-		conds = append(conds, condCalls(info, p.Node(), "Wait")...)
-	}
-	if len(conds) != 1 {
-		c.Check("R4.wait", fn.Decl.Name.Name+"/one-wait", fn.Decl.Pos(), false,
-			fmt.Sprintf("%s must contain exactly one Wait (its no-progress tail); found %d: a side that never sleeps spins, one that sleeps twice can miss the wake-up", fn.Decl.Name.Name, len(conds)))
+// waitCond: the single condition a side sleeps on.
+func waitCond(c *core.Ctx, fn *core.Fn, res *ring.SymResult) string {
+	name := fn.Decl.Name.Name
+	if ok, why := res.Usable(); !ok {
+		c.Undecidedf("R4.wait", name+"/one-wait", fn.Decl.Pos(), "%s: %s", name, why)
 		return ""
 	}
-	c.Okf("R4.wait", fn.Decl.Name.Name+"/one-wait", fn.Decl.Pos(), "exactly one Wait, on %s", conds[0])
-	return conds[0]
-}
-
-// storeCall finds the assignment `n, err := <p>.store.<method>(b)` in fn.
-func storeCall(c *core.Ctx, fn *core.Fn, method string) (*ast.AssignStmt, pat.Binds) {
-	info := fn.Pkg.TypesInfo
-	p := pat.Stmt("_n, _err = _p.store." + method + "(_b)")
-	n, b := p.Find(info, fn.Decl.Body, nil)
-	if n == nil {
-		return nil, nil
-	}
-	return n.(*ast.AssignStmt), b
-}
-
-// progressFact matches the atoms `n != 0` / `err != nil` with value false
-// (i.e. no progress and no error), given bindings for n and err.
-func noProgressEdge(g *cfgq.Graph, info *types.Info, b *cfg.Block, succ int, binds pat.Binds) bool {
-	gotN, gotErr := false, false
-	for _, f := range g.EdgeFacts(b, succ) {
-		if pat.Expr("_n != 0").Match(info, f.Expr, binds) != nil && !f.Val || pat.Expr("_n == 0").Match(info, f.Expr, binds) != nil && f.Val {
-			gotN = true
+	sites := map[token.Pos]string{}
+	twice, unknown := false, false
+	for _, t := range res.Traces {
+		k := 0
+		for _, e := range t.Events {
+			if f, m, ok := ring.CondOp(e); m == "Wait" {
+				if !ok {
+					unknown = true
+					continue
+				}
+				sites[e.Pos] = f
+				k++
+			}
 		}
-		if pat.Expr("_err != nil").Match(info, f.Expr, binds) != nil && !f.Val || pat.Expr("_err == nil").Match(info, f.Expr, binds) != nil && f.Val {
-			gotErr = true
+		if k > 1 {
+			twice = true
 		}
 	}
-	return gotN && gotErr
+	if unknown {
+		c.Undecidedf("R4.wait", name+"/one-wait", fn.Decl.Pos(), "%s waits on a condition that is not a field of the pipe", name)
+		return ""
+	}
+	if len(sites) != 1 || twice {
+		c.Check("R4.wait", name+"/one-wait", fn.Decl.Pos(), false,
+			fmt.Sprintf("%s must contain exactly one Wait (its no-progress tail); found %d: a side that never sleeps spins, one that sleeps twice can miss the wake-up", name, len(sites)))
+		return ""
+	}
+	for _, f := range sites {
+		c.Okf("R4.wait", name+"/one-wait", fn.Decl.Pos(), "exactly one Wait, on %s", f)
+		return f
+	}
+	return ""
+}
+
+// verdict collects the first failing trace of one obligation.
+type verdict struct {
+	seen bool
+	bad  *ring.Trace
+	pos  token.Pos
+}
+
+func (v *verdict) add(t *ring.Trace, pos token.Pos, ok bool) {
+	if !v.seen {
+		v.pos = pos
+	}
+	v.seen = true
+	if !ok && v.bad == nil {
+		v.bad = t
+		v.pos = pos
+	}
+}
+
+func (v *verdict) report(c *core.Ctx, rule, key string, def token.Pos, msg string) {
+	pos := v.pos
+	if !pos.IsValid() {
+		pos = def
+	}
+	var w []string
+	if v.bad != nil {
+		w = v.bad.Witness(c)
+	}
+	c.Check(rule, key, pos, v.bad == nil, msg, w...)
+}
+
+func isUnlock(e *ring.Event) bool {
+	return e.Kind == ring.EvCall && e.Callee != nil && e.Callee.Pkg() != nil && e.Callee.Pkg().Path() == "sync" && (e.Callee.Name() == "Unlock" || e.Callee.Name() == "RUnlock")
 }
 
 // side checks R2 and R4 for readSome / writeSome.
 // own: the condition this side waits on; peer: the condition the other side
 // waits on; peerErr: the other side's error field.
-func side(c *core.Ctx, fn *core.Fn, name, own, peer, peerErr string) {
-	info := fn.Pkg.TypesInfo
-	g := cfgq.Of(c.Program, fn)
-	as, binds := storeCall(c, fn, name)
-	if as == nil {
-		c.Undecidedf("R2.wake", name+"/store-call", fn.Decl.Pos(), "cannot find `n, err := p.store.%s(b)` in %s", name, name)
+func side(c *core.Ctx, fn *core.Fn, res *ring.SymResult, name, own, peer, peerErr string) {
+	if ok, why := res.Usable(); !ok {
+		c.Undecidedf("R2.wake", name+"/store-call", fn.Decl.Pos(), "%s: %s", name, why)
 		return
 	}
-	sp, ok := g.Find(as)
-	if !ok {
-		c.Undecidedf("R2.wake", name+"/store-call", as.Pos(), "store call not in the control-flow graph")
+	storeOp := func(e *ring.Event) bool { return ring.IsFieldCall(e, "store", name) }
+	peerVar := fieldVar(c, "pipe", peerErr)
+	var signal, onlyNoProg, afterStore, peerOpen, retZero verdict
+	anyStore := false
+	for _, t := range res.Traces {
+		s := t.First(storeOp)
+		if s != nil {
+			anyStore = true
+			// R2: a normal exit on which the store may have made progress or failed has signalled the peer
+			if t.Normal() && ring.MayProgress(t.Facts, s) {
+				sig := t.First(func(e *ring.Event) bool {
+					return e.Index > s.Index && ring.IsCondOp(e, peer, "Signal", "Broadcast")
+				})
+				signal.add(t, s.Pos, sig != nil)
+			} else {
+				signal.add(t, s.Pos, true)
+			}
+		}
+		// R4: the Wait
+		w := t.First(func(e *ring.Event) bool { return ring.IsCondOp(e, own, "Wait") })
+		if w == nil {
+			continue
+		}
+		before := s != nil && s.Index < w.Index
+		afterStore.add(t, w.Pos, before)
+		onlyNoProg.add(t, w.Pos, before && ring.NoProgress(t.FactsAt(w), s))
+		peerOpen.add(t, w.Pos, peerVar != nil && t.FactsAt(w).IsNil(w.FieldNow(res.Recv, peerVar)))
+		okRet := t.Normal() && len(t.Results) == 2 && t.Facts.IsZero(t.Results[0]) && t.Facts.IsNil(t.Results[1])
+		for _, e := range t.Events[w.Index+1:] {
+			switch e.Kind {
+			case ring.EvStore:
+				okRet = false
+			case ring.EvCall:
+				if !e.Deferred && !isUnlock(e) {
+					okRet = false
+				}
+			}
+		}
+		if t.Exit == ring.ExitReturn || t.Exit == ring.ExitPanic {
+			retZero.add(t, w.Pos, okRet)
+		}
+	}
+	if !anyStore {
+		c.Undecidedf("R2.wake", name+"/store-call", fn.Decl.Pos(), "no path of %s calls p.store.%s", name, name)
 		return
 	}
-	// R2: from the store call, a normal exit reached without passing through
-	// the no-progress edge must have signalled the peer.
-	signalPeer := func(n ast.Node) bool { return has(condCalls(info, n, "Signal", "Broadcast"), peer) }
-	w := g.Path(cfgq.Query{From: sp, After: true, Avoid: signalPeer, TargetExit: cfgq.NormalExit,
-		AvoidEdge: func(b *cfg.Block, s int) bool { return noProgressEdge(g, info, b, s, binds) }})
-	c.Check("R2.wake", name+"/signal-on-progress", as.Pos(), w == nil,
-		fmt.Sprintf("every path on which the store made progress or failed (n != 0 || err != nil) must call %s.Signal() before returning, or the blocked peer is never woken", peer), w...)
+	signal.report(c, "R2.wake", name+"/signal-on-progress", fn.Decl.Pos(),
+		fmt.Sprintf("every path on which the store made progress or failed (n != 0 || err != nil) must call %s.Signal() before returning, or the blocked peer is never woken", peer))
+	onlyNoProg.report(c, "R4.wait", name+"/only-without-progress", fn.Decl.Pos(),
+		"Wait must be reachable only when the store call made no progress and returned no error (otherwise bytes are held back / the side sleeps with work to do)")
+	afterStore.report(c, "R4.wait", name+"/after-store-attempt", fn.Decl.Pos(), "the store operation must be attempted before sleeping")
+	peerOpen.report(c, "R4.wait", name+"/peer-open", fn.Decl.Pos(),
+		fmt.Sprintf("Wait must be reachable only when %s is nil: sleeping after the other side closed can never be woken", peerErr))
+	retZero.report(c, "R4.wait", name+"/return-after-wait", fn.Decl.Pos(),
+		"after Wait the function must return (0, nil) so that the caller's loop re-examines the state under the lock")
 
-	// R4: the Wait is reachable only through the no-progress edge and with the peer's error unset
-	waits := g.Points(func(n ast.Node) bool { return has(condCalls(info, n, "Wait"), own) })
-	for _, wp := range waits {
-		wn := wp.Node()
-		w1 := g.Path(cfgq.Query{From: g.Entry(), Target: func(n ast.Node) bool { return n == wn },
-			AvoidEdge: func(b *cfg.Block, s int) bool { return noProgressEdge(g, info, b, s, binds) }})
-		c.Check("R4.wait", name+"/only-without-progress", wn.Pos(), w1 == nil,
-			"Wait must be reachable only when the store call made no progress and returned no error (otherwise bytes are held back / the side sleeps with work to do)", w1...)
-		dom, w2 := g.Dominated(wp, func(n ast.Node) bool { return n == ast.Node(as) })
-		c.Check("R4.wait", name+"/after-store-attempt", wn.Pos(), dom, "the store operation must be attempted before sleeping", w2...)
-		okPeer, w3 := g.OnlyViaFact(wp, func(f cfgq.Fact) bool {
-			return pat.Expr("_p."+peerErr+" != nil").Match(info, f.Expr, nil) != nil && !f.Val ||
-				pat.Expr("_p."+peerErr+" == nil").Match(info, f.Expr, nil) != nil && f.Val
-		})
-		c.Check("R4.wait", name+"/peer-open", wn.Pos(), okPeer,
-			fmt.Sprintf("Wait must be reachable only when %s is nil: sleeping after the other side closed can never be woken", peerErr), w3...)
-		okRet := ring.AfterWaitReturnsZero(info, wp, binds)
-		c.Check("R4.wait", name+"/return-after-wait", wn.Pos(), okRet, "after Wait the function must return (0, nil) so that the caller's loop re-examines the state under the lock")
-	}
 	// callers retry after a wake-up
-	callers := 0
-	for _, b := range ring.Bodies(c, pkg) {
-		if b.Lit == nil && b.Decl == fn.Decl {
-			continue
+	vs := ring.RetriesOnWake(c, pkg, fn.Obj)
+	for _, v := range vs {
+		key := name + "/caller-loops/" + ring.BodyName(v.Fn.Obj)
+		msg := fmt.Sprintf("%s returns (0,nil) after a wake-up; its caller must call it again (unless the buffer is empty) instead of returning no progress to its own caller", name)
+		switch v.Status {
+		case 1:
+			c.Okf("R4.wait", key, v.Fn.Decl.Pos(), "%s", msg)
+		case 0:
+			c.Check("R4.wait", key, v.Fn.Decl.Pos(), false, msg, v.Witness...)
+		default:
+			c.Undecidedf("R4.wait", key, v.Fn.Decl.Pos(), "%s: %s", msg, v.Why)
 		}
-		cg := b.G
-		var bufObj types.Object
-		params := b.Decl.Type.Params
-		if b.Lit != nil {
-			params = b.Lit.Type.Params
-		}
-		if params != nil && len(params.List) > 0 && len(params.List[0].Names) > 0 {
-			bufObj = info.Defs[params.List[0].Names[0]]
-		}
-		n, w := ring.RetriesOnWake(cg, fn.Obj, bufObj)
-		if n == 0 {
-			continue
-		}
-		callers += n
-		c.Check("R4.wait", name+"/caller-loops/"+b.Name, b.Decl.Pos(), w == nil,
-			fmt.Sprintf("%s returns (0,nil) after a wake-up; its caller must call it again (unless the buffer is empty) instead of returning no progress to its own caller", name), w...)
 	}
-	if callers == 0 {
+	if len(vs) == 0 {
 		c.Undecidedf("R4.wait", name+"/caller-loops", fn.Decl.Pos(), "no caller of %s found", name)
 	}
 }
 
+// sideLock: every call of inner (readSome / writeSome) happens with the side
+// lock held. The call may sit in outer itself or in a helper / closure that is
+// only ever invoked with the lock held.
 func sideLock(c *core.Ctx, outer, inner, lock string) {
 	fn := c.Func(pkg, "pipe", outer)
 	in := c.Func(pkg, "pipe", inner)
@@ -255,134 +275,179 @@ func sideLock(c *core.Ctx, outer, inner, lock string) {
 		return
 	}
 	info := fn.Pkg.TypesInfo
-	g := cfgq.Of(c.Program, fn)
-	isCall := func(method string, deferred bool) func(ast.Node) bool {
-		return func(n ast.Node) bool {
-			var calls []*ast.CallExpr
-			if d, ok := n.(*ast.DeferStmt); ok {
-				if !deferred {
-					return false
-				}
-				calls = []*ast.CallExpr{d.Call}
-			} else if deferred {
-				return false
-			} else {
-				calls = cfgq.ExecCalls(n)
-			}
-			for _, call := range calls {
-				if sel, ok := ast.Unparen(call.Fun).(*ast.SelectorExpr); ok && sel.Sel.Name == method && core.IsFieldNamed(info, sel.X, "pipe", lock) {
-					return true
-				}
-			}
-			return false
-		}
-	}
-	held := g.Held(isCall("Lock", false), isCall("Unlock", false))
-	n := 0
-	for _, p := range g.Points(g.HasCall(func(call *ast.CallExpr, callee types.Object) bool { return callee == in.Obj })) {
-		n++
-		c.Check("R1.side", outer+"/"+lock, p.Node().Pos(), held[p.Node()],
-			fmt.Sprintf("%s must call %s with %s held for the whole transfer (one %s at a time inside the ring)", outer, inner, lock, outer))
-	}
-	if n == 0 {
-		c.Undecidedf("R1.side", outer+"/"+lock, fn.Decl.Pos(), "%s does not call %s", outer, inner)
-	}
-	// all callers of inner are outer
-	for _, b := range ring.Bodies(c, pkg) {
-		if b.Decl == fn.Decl {
-			continue
-		}
+	ls := ring.LockHeld(c, pkg, "pipe", lock)
+	pc := ring.CallsIn(c, pkg)
+	total := 0
+	for i, b := range ls.Bodies {
 		var root ast.Node = b.Decl.Body
 		if b.Lit != nil {
-			root = b.Lit
+			root = b.Lit.Body
+		}
+		i, b := i, b
+		if fo, _ := info.Defs[b.Decl.Name].(*types.Func); fo != nil && !pc.Referenced(fo) {
+			continue // dead code
 		}
 		core.Inspect(root, func(m ast.Node) bool {
-			if call, ok := m.(*ast.CallExpr); ok && core.CalleeFunc(info, call) == in.Obj {
-				c.Failf("R1.side", inner+"/foreign-caller/"+b.Name, call.Pos(), "%s is called outside %s, i.e. without %s", inner, outer, lock)
+			call, ok := m.(*ast.CallExpr)
+			if !ok || core.CalleeFunc(info, call) != in.Obj {
+				return true
+			}
+			total++
+			held := ls.HeldAt(i, call)
+			msg := fmt.Sprintf("%s must be called with %s held for the whole transfer (one %s at a time inside the ring)", inner, lock, outer)
+			switch {
+			case b.Decl == fn.Decl:
+				c.Check("R1.side", outer+"/"+lock, call.Pos(), held, msg)
+			case held:
+				c.Okf("R1.side", inner+"/caller/"+b.Name, call.Pos(), "%s", msg)
+			default:
+				c.Failf("R1.side", inner+"/foreign-caller/"+b.Name, call.Pos(), "%s is called outside %s without %s", inner, outer, lock)
 			}
 			return true
 		})
+	}
+	if total == 0 {
+		c.Undecidedf("R1.side", outer+"/"+lock, fn.Decl.Pos(), "no call of %s found", inner)
 	}
 }
 
-func r5read(c *core.Ctx, fn *core.Fn) {
-	info := fn.Pkg.TypesInfo
-	g := cfgq.Of(c.Program, fn)
-	// (a) every store access and every werr read is reachable only with rerr == nil established
-	rerrNil := func(f cfgq.Fact) bool {
-		return pat.Expr("_p.rerr != nil").Match(info, f.Expr, nil) != nil && !f.Val || pat.Expr("_p.rerr == nil").Match(info, f.Expr, nil) != nil && f.Val
+func r5read(c *core.Ctx, fn *core.Fn, res *ring.SymResult) {
+	if ok, why := res.Usable(); !ok {
+		c.Undecidedf("R5.order", "readSome/reader-closed-first", fn.Decl.Pos(), "%s", why)
+		return
 	}
-	k := 0
-	for _, p := range g.Points(func(n ast.Node) bool {
-		return core.MentionsField(info, n, "pipe", "store") || core.MentionsField(info, n, "pipe", "werr")
-	}) {
-		k++
-		ok, w := g.OnlyViaFact(p, rerrNil)
-		c.Check("R5.order", fmt.Sprintf("readSome/reader-closed-first#%d", k), p.Node().Pos(), ok,
-			"after the reader closed, readSome must fail with the closed-pipe error before looking at the store or the writer's error", w...)
+	rerr := fieldVar(c, "pipe", "rerr")
+	// (a) every look at the store or at the writer's error happens with rerr found nil
+	sites := map[token.Pos]*verdict{}
+	for _, t := range res.Traces {
+		for _, e := range t.Events {
+			if !ring.IsReadOf(e, "store") && !ring.IsReadOf(e, "werr") {
+				continue
+			}
+			v := sites[e.Pos]
+			if v == nil {
+				v = &verdict{}
+				sites[e.Pos] = v
+			}
+			v.add(t, e.Pos, rerr != nil && t.FactsAt(e).IsNil(e.FieldNow(res.Recv, rerr)))
+		}
 	}
-	if k == 0 {
+	for k, p := range sortedPos(sites) {
+		sites[p].report(c, "R5.order", fmt.Sprintf("readSome/reader-closed-first#%d", k+1), p,
+			"after the reader closed, readSome must fail with the closed-pipe error before looking at the store or the writer's error")
+	}
+	if len(sites) == 0 {
 		c.Undecidedf("R5.order", "readSome/reader-closed-first", fn.Decl.Pos(), "no store/werr access found")
 	}
-	// (b) returning werr only after the store was found empty: dominated by the
-	// store read with no progress, or by `buffered() != 0` being false
-	as, binds := storeCall(c, fn, "readSome")
-	emptyEdge := func(b *cfg.Block, s int) bool {
-		if as != nil && noProgressEdge(g, info, b, s, binds) {
-			return true
+	// (b) the writer's error is returned only after the store was found empty
+	rets := map[token.Pos]*verdict{}
+	for _, t := range res.Traces {
+		if !t.Normal() || len(t.Results) != 2 {
+			continue
 		}
-		return g.Establishes(b, s, func(f cfgq.Fact) bool {
-			return pat.Expr("_p.store.buffered() != 0").Match(info, f.Expr, nil) != nil && !f.Val ||
-				pat.Expr("_p.store.buffered() == 0").Match(info, f.Expr, nil) != nil && f.Val
-		})
+		v := t.Results[1].Unwrap()
+		if !v.IsFieldLeaf("werr") || t.Facts.IsNil(v) {
+			continue
+		}
+		drained := t.First(func(e *ring.Event) bool {
+			if ring.IsFieldCall(e, "store", "readSome") && ring.NoProgress(t.Facts, e) {
+				return true
+			}
+			return ring.IsFieldCall(e, "store", "buffered") && len(e.Results) == 1 && t.Facts.IsZero(e.Results[0])
+		}) != nil
+		vd := rets[t.RetPos]
+		if vd == nil {
+			vd = &verdict{}
+			rets[t.RetPos] = vd
+		}
+		vd.add(t, t.RetPos, drained)
 	}
-	k = 0
-	for _, p := range g.Points(func(n ast.Node) bool {
-		r, ok := n.(*ast.ReturnStmt)
-		return ok && core.MentionsField(info, r, "pipe", "werr")
-	}) {
-		k++
-		tn := p.Node()
-		w := g.Path(cfgq.Query{From: g.Entry(), Target: func(n ast.Node) bool { return n == tn }, AvoidEdge: emptyEdge})
-		c.Check("R5.order", fmt.Sprintf("readSome/drain-before-werr#%d", k), tn.Pos(), w == nil,
-			"the writer's error (EOF) may be returned only after the store was found empty: buffered bytes are drained first", w...)
+	for k, p := range sortedPos(rets) {
+		rets[p].report(c, "R5.order", fmt.Sprintf("readSome/drain-before-werr#%d", k+1), p,
+			"the writer's error (EOF) may be returned only after the store was found empty: buffered bytes are drained first")
 	}
-	if k == 0 {
+	if len(rets) == 0 {
 		c.Failf("R5.order", "readSome/returns-werr", fn.Decl.Pos(), "readSome never returns the writer's error: a reader of a closed, drained pipe would block forever")
 	}
 }
 
-func r5write(c *core.Ctx, fn *core.Fn) {
-	info := fn.Pkg.TypesInfo
-	g := cfgq.Of(c.Program, fn)
-	as, _ := storeCall(c, fn, "writeSome")
-	if as == nil {
+func sortedPos(m map[token.Pos]*verdict) []token.Pos {
+	var ps []token.Pos
+	for p := range m {
+		ps = append(ps, p)
+	}
+	sort.Slice(ps, func(i, j int) bool { return ps[i] < ps[j] })
+	return ps
+}
+
+func r5write(c *core.Ctx, fn *core.Fn, res *ring.SymResult) {
+	if ok, why := res.Usable(); !ok {
+		c.Undecidedf("R5.order", "writeSome/test-werr-before-store", fn.Decl.Pos(), "%s", why)
 		return
 	}
-	sp, _ := g.Find(as)
-	for _, fld := range []string{"werr", "rerr"} {
-		fld := fld
-		ok, w := g.OnlyViaFact(sp, func(f cfgq.Fact) bool {
-			return pat.Expr("_p."+fld+" != nil").Match(info, f.Expr, nil) != nil && !f.Val || pat.Expr("_p."+fld+" == nil").Match(info, f.Expr, nil) != nil && f.Val
-		})
-		c.Check("R5.order", "writeSome/test-"+fld+"-before-store", as.Pos(), ok,
-			fmt.Sprintf("the store write must be reachable only after %s was tested and found nil (a write after a close must fail, not buffer)", fld), w...)
+	werr, rerr := fieldVar(c, "pipe", "werr"), fieldVar(c, "pipe", "rerr")
+	if werr == nil || rerr == nil || res.Recv == nil {
+		c.Undecidedf("R5.order", "writeSome/test-werr-before-store", fn.Decl.Pos(), "fields werr/rerr not found")
+		return
 	}
-	// the werr test comes first: the rerr test is itself reachable only with werr == nil
-	for _, p := range g.Points(func(n ast.Node) bool {
-		e, ok := n.(ast.Expr)
-		return ok && core.MentionsField(info, e, "pipe", "rerr")
-	}) {
-		ok, w := g.OnlyViaFact(p, func(f cfgq.Fact) bool {
-			return pat.Expr("_p.werr != nil").Match(info, f.Expr, nil) != nil && !f.Val || pat.Expr("_p.werr == nil").Match(info, f.Expr, nil) != nil && f.Val
-		})
-		c.Check("R5.order", "writeSome/werr-before-rerr", p.Node().Pos(), ok, "a write after the writer's own close reports the closed-pipe error, whatever the reader did", w...)
+	storeOp := func(e *ring.Event) bool { return ring.IsFieldCall(e, "store", "writeSome") }
+	var tw, tr, order, cw, cr verdict
+	sawW, sawR := false, false
+	for _, t := range res.Traces {
+		s := t.First(storeOp)
+		if s != nil {
+			tw.add(t, s.Pos, t.FactsAt(s).IsNil(s.FieldNow(res.Recv, werr)))
+			tr.add(t, s.Pos, t.FactsAt(s).IsNil(s.FieldNow(res.Recv, rerr)))
+		}
+		if !t.Normal() || len(t.Results) != 2 {
+			continue
+		}
+		// what the trace says about the close state at entry
+		w0 := ring.FieldAtEntry(res.Recv, werr)
+		r0 := ring.FieldAtEntry(res.Recv, rerr)
+		got := t.Results[1].Unwrap()
+		failed := s == nil && t.Facts.IsZero(t.Results[0])
+		switch {
+		case !t.Facts.IsNil(w0):
+			// the writer may have closed: io.ErrClosedPipe, whatever the reader did
+			okW := failed && got.IsGlobal("io", "ErrClosedPipe")
+			if okW {
+				sawW = true
+			}
+			if !okW && got.IsFieldLeaf("rerr") {
+				order.add(t, t.RetPos, false)
+			} else {
+				cw.add(t, t.RetPos, okW)
+			}
+		case !t.Facts.IsNil(r0):
+			// writer open, the reader may have closed: the reader's close error
+			okR := failed && got.IsFieldLeaf("rerr")
+			if okR {
+				sawR = true
+			}
+			cr.add(t, t.RetPos, okR)
+		}
 	}
-	// error returned for closed writer is ErrClosedPipe, for closed reader it is rerr
-	n1, _ := pat.Stmt("return 0, _f(io.ErrClosedPipe)").Find(info, fn.Decl.Body, nil)
-	c.Check("R5.order", "writeSome/closed-writer-error", fn.Decl.Pos(), n1 != nil, "writeSome returns io.ErrClosedPipe (wrapped) once the writer is closed")
-	n2, _ := pat.Stmt("return 0, _p.rerr").Find(info, fn.Decl.Body, nil)
-	c.Check("R5.order", "writeSome/closed-reader-error", fn.Decl.Pos(), n2 != nil, "writeSome returns the reader's close error once the reader is closed")
+	if !tw.seen {
+		c.Undecidedf("R5.order", "writeSome/test-werr-before-store", fn.Decl.Pos(), "no path of writeSome calls p.store.writeSome")
+		return
+	}
+	tw.report(c, "R5.order", "writeSome/test-werr-before-store", fn.Decl.Pos(),
+		"the store write must be reachable only after werr was tested and found nil (a write after a close must fail, not buffer)")
+	tr.report(c, "R5.order", "writeSome/test-rerr-before-store", fn.Decl.Pos(),
+		"the store write must be reachable only after rerr was tested and found nil (a write after a close must fail, not buffer)")
+	order.seen = true
+	order.report(c, "R5.order", "writeSome/werr-before-rerr", fn.Decl.Pos(), "a write after the writer's own close reports the closed-pipe error, whatever the reader did")
+	if cw.bad == nil && !sawW {
+		c.Failf("R5.order", "writeSome/closed-writer-error", fn.Decl.Pos(), "writeSome returns io.ErrClosedPipe (wrapped) once the writer is closed; no path does")
+	} else {
+		cw.report(c, "R5.order", "writeSome/closed-writer-error", fn.Decl.Pos(), "writeSome returns (0, io.ErrClosedPipe (wrapped)) without touching the store once the writer is closed")
+	}
+	if cr.bad == nil && !sawR {
+		c.Failf("R5.order", "writeSome/closed-reader-error", fn.Decl.Pos(), "writeSome returns the reader's close error once the reader is closed; no path does")
+	} else {
+		cr.report(c, "R5.order", "writeSome/closed-reader-error", fn.Decl.Pos(), "writeSome returns (0, rerr) without touching the store once the reader is closed")
+	}
 }
 
 func closeRule(c *core.Ctx, method, errField, storeClose, defErr, rw, ww string) {
@@ -390,90 +455,136 @@ func closeRule(c *core.Ctx, method, errField, storeClose, defErr, rw, ww string)
 	if fn == nil {
 		return
 	}
-	info := fn.Pkg.TypesInfo
-	g := cfgq.Of(c.Program, fn)
-	// default error
-	var param *ast.Ident
-	if ps := fn.Decl.Type.Params.List; len(ps) == 1 && len(ps[0].Names) == 1 {
-		param = ps[0].Names[0]
+	res := ring.RunSym(c, fn, &ring.Sym{})
+	if ok, why := res.Usable(); !ok {
+		c.Undecidedf("R3.close", method+"/default-error", fn.Decl.Pos(), "%s: %s", method, why)
+		return
 	}
-	if param == nil {
+	if len(res.Params) != 1 || res.Recv == nil {
 		c.Undecidedf("R3.close", method+"/param", fn.Decl.Pos(), "%s must take one error parameter", method)
 		return
 	}
-	b := pat.Binds{"_e": param}
-	okDef := false
-	ast.Inspect(fn.Decl.Body, func(n ast.Node) bool {
-		ifs, ok := n.(*ast.IfStmt)
-		if !ok {
-			return true
-		}
-		if pat.Expr("_e == nil").Match(info, ifs.Cond, b) == nil {
-			return true
-		}
-		for _, s := range ifs.Body.List {
-			if pat.Stmt("_e = _f(io."+defErr+")").Match(info, s, b) != nil || pat.Stmt("_e = io."+defErr).Match(info, s, b) != nil {
-				okDef = true
-			}
-		}
-		return true
-	})
-	c.Check("R3.close", method+"/default-error", fn.Decl.Pos(), okDef, fmt.Sprintf("%s(nil) must default the error to io.%s", method, defErr))
-	// first close wins: assignment to p.<errField> only where p.<errField> == nil is established
-	k := 0
-	for _, p := range g.Points(func(n ast.Node) bool {
-		as, ok := n.(*ast.AssignStmt)
-		if !ok {
-			return false
-		}
-		for _, l := range as.Lhs {
-			if core.IsFieldNamed(info, l, "pipe", errField) {
-				return true
-			}
-		}
-		return false
-	}) {
-		k++
-		ok, w := g.OnlyViaFact(p, func(f cfgq.Fact) bool {
-			return pat.Expr("_p."+errField+" == nil").Match(info, f.Expr, nil) != nil && f.Val || pat.Expr("_p."+errField+" != nil").Match(info, f.Expr, nil) != nil && !f.Val
-		})
-		c.Check("R3.close", method+"/first-close-wins", p.Node().Pos(), ok, fmt.Sprintf("%s is assigned only while it is nil (first close wins)", errField), w...)
-		as := p.Node().(*ast.AssignStmt)
-		c.Check("R3.close", method+"/stores-error", as.Pos(), len(as.Rhs) == 1 && pat.Same(info, as.Rhs[0], param), fmt.Sprintf("%s stores the (defaulted) close error in %s", method, errField))
+	param := res.Params[0]
+	fv := fieldVar(c, "pipe", errField)
+	if fv == nil {
+		c.Undecidedf("R3.close", method+"/sets-"+errField, fn.Decl.Pos(), "field %s not found", errField)
+		return
 	}
-	if k == 0 {
+	var def, first, stores, always, closes verdict
+	sig := map[string]*verdict{rw: {}, ww: {}}
+	anyStore, unknownVal := false, ""
+	for _, t := range res.Traces {
+		for _, s := range t.Find(func(e *ring.Event) bool { return ring.IsStoreTo(e, errField) }) {
+			anyStore = true
+			fs := t.FactsAt(s)
+			first.add(t, s.Pos, fs.IsNil(s.Old))
+			v := s.Val.Unwrap()
+			switch {
+			case v.Key() == param.Key():
+				// the caller's error: only where it is known not to be nil
+				def.add(t, s.Pos, fs.NonNil(param))
+				stores.add(t, s.Pos, true)
+			case v.IsGlobal("io", defErr):
+				// the default: only where the caller passed nil
+				def.add(t, s.Pos, true)
+				stores.add(t, s.Pos, fs.IsNil(param))
+			case v.IsLeafKind(ring.LGlobal):
+				def.add(t, s.Pos, false) // another default error
+				stores.add(t, s.Pos, true)
+			default:
+				unknownVal = v.Key()
+			}
+		}
+		if !t.Normal() {
+			continue
+		}
+		always.add(t, fn.Decl.Pos(), t.Facts.NonNil(t.End.FieldNow(res.Recv, fv)))
+		for cond, v := range sig {
+			cond := cond
+			v.add(t, fn.Decl.Pos(), t.First(func(e *ring.Event) bool { return ring.IsCondOp(e, cond, "Signal", "Broadcast") }) != nil)
+		}
+		closes.add(t, fn.Decl.Pos(), t.First(func(e *ring.Event) bool { return ring.IsFieldCall(e, "store", storeClose) }) != nil)
+	}
+	if !anyStore {
 		c.Failf("R3.close", method+"/sets-"+errField, fn.Decl.Pos(), "%s never sets %s: the other side is not told about the close", method, errField)
+	} else if unknownVal != "" {
+		c.Undecidedf("R3.close", method+"/stores-error", fn.Decl.Pos(), "%s stores `%s` in %s, which is neither its parameter nor io.%s", method, unknownVal, errField, defErr)
+	} else {
+		def.report(c, "R3.close", method+"/default-error", fn.Decl.Pos(), fmt.Sprintf("%s(nil) must default the error to io.%s (a nil close error would leave the side open)", method, defErr))
+		first.report(c, "R3.close", method+"/first-close-wins", fn.Decl.Pos(), fmt.Sprintf("%s is assigned only while it is nil (first close wins)", errField))
+		stores.report(c, "R3.close", method+"/stores-error", fn.Decl.Pos(), fmt.Sprintf("%s stores the (defaulted) close error in %s", method, errField))
 	}
-	// and it is set on every path where it was nil: every normal exit passes either the assignment or the edge "already set"
-	setOrAlready := func(n ast.Node) bool {
-		as, ok := n.(*ast.AssignStmt)
-		if !ok {
-			return false
+	always.report(c, "R3.close", method+"/always-sets", fn.Decl.Pos(), fmt.Sprintf("every path of %s leaves %s non-nil", method, errField))
+	for _, cond := range []string{rw, ww} {
+		sig[cond].report(c, "R3.close", method+"/signals-"+cond, fn.Decl.Pos(), fmt.Sprintf("%s must wake sleepers on %s on every path (a blocked side is always woken by a close)", method, cond))
+		if rw == ww {
+			break
 		}
-		for _, l := range as.Lhs {
-			if core.IsFieldNamed(info, l, "pipe", errField) {
-				return true
+	}
+	closes.report(c, "R3.close", method+"/closes-store", fn.Decl.Pos(), fmt.Sprintf("%s calls store.%s() on every path", method, storeClose))
+}
+
+// extraWaits: a sync.Cond.Wait that is not one of the events of readSome /
+// writeSome (helpers they call are inlined there) is a sleeper the progress
+// and close wake-ups do not cover.
+func extraWaits(c *core.Ctx, results ...*ring.SymResult) {
+	covered := map[token.Pos]bool{}
+	for _, r := range results {
+		for _, t := range r.Traces {
+			for _, e := range t.Events {
+				if _, m, _ := ring.CondOp(e); m == "Wait" && e.Call != nil {
+					covered[e.Call.Pos()] = true
+				}
 			}
 		}
-		return false
 	}
-	w := g.Path(cfgq.Query{From: g.Entry(), Avoid: setOrAlready, TargetExit: cfgq.NormalExit,
-		AvoidEdge: func(bk *cfg.Block, s int) bool {
-			return g.Establishes(bk, s, func(f cfgq.Fact) bool {
-				return pat.Expr("_p."+errField+" == nil").Match(info, f.Expr, nil) != nil && !f.Val || pat.Expr("_p."+errField+" != nil").Match(info, f.Expr, nil) != nil && f.Val
-			})
-		}})
-	c.Check("R3.close", method+"/always-sets", fn.Decl.Pos(), w == nil, fmt.Sprintf("every path of %s leaves %s non-nil", method, errField), w...)
-	// both conditions signalled on every path, store closed
-	for _, cond := range []string{rw, ww} {
-		cond := cond
-		ok, w := g.MustPassToExit(g.Entry(), false, func(n ast.Node) bool { return has(condCalls(info, n, "Signal", "Broadcast"), cond) })
-		c.Check("R3.close", method+"/signals-"+cond, fn.Decl.Pos(), ok, fmt.Sprintf("%s must wake sleepers on %s on every path (a blocked side is always woken by a close)", method, cond), w...)
+	info := c.Pkg(pkg).TypesInfo
+	pc := ring.CallsIn(c, pkg)
+	const waitRule = "R4.wait"
+	anchors := map[*types.Func]bool{}
+	for _, r := range results {
+		anchors[r.Fn.Obj.Origin()] = true
 	}
-	ok, w2 := g.MustPassToExit(g.Entry(), false, g.HasCall(func(call *ast.CallExpr, callee types.Object) bool {
-		return pat.Expr("_p.store."+storeClose+"()").Match(info, call, nil) != nil
-	}))
-	c.Check("R3.close", method+"/closes-store", fn.Decl.Pos(), ok, fmt.Sprintf("%s calls store.%s() on every path", method, storeClose), w2...)
+	for _, b := range ring.Bodies(c, pkg) {
+		var root ast.Node = b.Decl.Body
+		if b.Lit != nil {
+			root = b.Lit
+		}
+		b := b
+		core.Inspect(root, func(m ast.Node) bool {
+			call, ok := m.(*ast.CallExpr)
+			if !ok {
+				return true
+			}
+			f := core.CalleeFunc(info, call)
+			if f == nil || f.Name() != "Wait" || core.NamedTypePath(recvType(f)) != "sync.Cond" {
+				return true
+			}
+			if covered[call.Pos()] {
+				// the site is part of an anchored operation; it must not be reachable around it
+				if encl, _ := info.Defs[b.Decl.Name].(*types.Func); encl != nil {
+					if ok, entry := pc.OnlyVia(encl, anchors); !ok {
+						c.Failf(waitRule, "extra-wait/"+ring.BodyName(entry), call.Pos(), "%s reaches a sync.Cond.Wait without going through the anchored wait operation: a sleeper the wake-ups are not designed for", ring.BodyName(entry))
+					}
+				}
+				return true
+			}
+			fo, _ := info.Defs[b.Decl.Name].(*types.Func)
+			if fo != nil && !pc.Referenced(fo) {
+				return true // dead code
+			}
+			c.Failf("R4.wait", "extra-wait/"+b.Name, call.Pos(), "sync.Cond.Wait outside readSome/writeSome: a sleeper that the progress/close wake-ups do not cover")
+			return true
+		})
+	}
+}
+
+func recvType(f *types.Func) types.Type {
+	sig, _ := f.Type().(*types.Signature)
+	if sig == nil || sig.Recv() == nil {
+		return nil
+	}
+	return sig.Recv().Type()
 }
 
 // siblings checks the position skeleton of every implementation of `buffer`.
@@ -485,27 +596,36 @@ func siblings(c *core.Ctx) {
 	}
 	for _, t := range impls {
 		tn := t.Obj().Name()
+		backing := ring.BackingField(t)
 		for _, m := range []string{"readSome", "writeSome", "buffered", "available", "rclose"} {
 			fn := c.Func(pkg, tn, m)
 			if fn == nil {
 				continue
 			}
-			info := fn.Pkg.TypesInfo
-			body := fn.Decl.Body
+			m := m
 			chk := func(what string, ok bool, msg string) {
 				c.Check("R6.sibling", tn+"."+m+"/"+what, fn.Decl.Pos(), ok, msg)
 			}
-			find := func(p *pat.Pattern, b pat.Binds) (ast.Node, pat.Binds) { return p.Find(info, body, b) }
+			tri := func(what string, v int, why, msg string) {
+				switch v {
+				case 1:
+					chk(what, true, msg)
+				case 0:
+					chk(what, false, msg+"; "+why)
+				default:
+					c.Undecidedf("R6.sibling", tn+"."+m+"/"+what, fn.Decl.Pos(), "%s: %s", msg, why)
+				}
+			}
 			switch m {
 			case "readSome", "writeSome":
 				sp := ring.TransferSpec{Rule: "R6.sibling", Key: tn + "." + m, Args: []string{"len(_b)", "_p.size", "_p.rpos", "_p.wpos"}}
 				if m == "readSome" {
-					sp.OffsetFn, sp.ArgsDesc, sp.Read, sp.Advance = "roffset", "roffset(len(b), p.size, p.rpos, p.wpos)", true, "rpos"
+					sp.OffsetFn, sp.ArgsDesc, sp.Read = "roffset", "roffset(len(b), p.size, p.rpos, p.wpos)", true
 					sp.ArgsKey, sp.WindowKey, sp.AdvKey = "roffset-args", "transfer-window", "advance-rpos"
 					sp.WindowMsg = "the bytes are taken from exactly [offset, offset+maxlen) of the backing store into the caller's buffer"
 					sp.AdvMsg = "rpos advances by exactly the number of bytes transferred"
 				} else {
-					sp.OffsetFn, sp.ArgsDesc, sp.Read, sp.Advance = "woffset", "woffset(len(b), p.size, p.rpos, p.wpos)", false, "wpos"
+					sp.OffsetFn, sp.ArgsDesc, sp.Read = "woffset", "woffset(len(b), p.size, p.rpos, p.wpos)", false
 					sp.ArgsKey, sp.WindowKey, sp.AdvKey = "woffset-args", "transfer-window", "advance-wpos"
 					sp.WindowMsg = "the bytes are put into exactly [offset, offset+maxlen) of the backing store from the front of the caller's buffer"
 					sp.AdvMsg = "wpos advances by exactly the number of bytes transferred"
@@ -514,16 +634,15 @@ func siblings(c *core.Ctx) {
 				if res == nil || res.Transfer == nil {
 					continue
 				}
+				sres := ring.RunSym(c, fn, &ring.Sym{Opaque: ring.OpaqueOffsets})
+				// the positions at the end of every path (values, not statements)
 				if m == "readSome" {
-					switch resetWhenEmpty(c, fn) {
-					case 1:
-						chk("reset-when-empty", true, "when rpos meets wpos both positions are reset to 0 together")
-					case 0:
-						chk("reset-when-empty", false, "when rpos meets wpos both positions are reset to 0 together (and only then)")
-					default:
-						c.Undecidedf("R6.sibling", tn+"."+m+"/reset-when-empty", fn.Decl.Pos(), "cannot see where the positions are reset")
-					}
+					av, awhy, rv, rwhy := ring.ReadEndState(sres, "rpos", "wpos")
+					tri(sp.AdvKey, av, awhy, sp.AdvMsg)
+					tri("reset-when-empty", rv, rwhy, "when rpos meets wpos both positions are reset to 0 together (and only then)")
 				} else {
+					av, awhy := ring.WriteEndState(sres, "wpos")
+					tri(sp.AdvKey, av, awhy, sp.AdvMsg)
 					st := ring.FrozenField(c, fn, "rpos")
 					chk("no-rpos-write", len(st) == 0, "the write side never moves rpos")
 				}
@@ -531,103 +650,23 @@ func siblings(c *core.Ctx) {
 				if m == "writeSome" {
 					zk, zmsg = "full-returns-zero", "a full ring yields (0, nil) so that the caller waits"
 				}
-				switch v, why := ring.ZeroGuard(c, res); v {
-				case 1:
-					chk(zk, true, zmsg)
-				case 0:
-					chk(zk, false, zmsg+"; "+why)
-				default:
-					c.Undecidedf("R6.sibling", tn+"."+m+"/"+zk, fn.Decl.Pos(), "%s: %s", zmsg, why)
-				}
-				chk("closed-store", closedGuard(info, body), "a nil backing store yields io.ErrClosedPipe")
+				zv, zwhy := ring.ZeroWindow(sres, sp.OffsetFn)
+				tri(zk, zv, zwhy, zmsg)
+				v, why := ring.ClosedGuard(sres, backing, "io", "ErrClosedPipe")
+				tri("closed-store", v, why, "a nil backing store yields io.ErrClosedPipe before anything is touched")
 			case "buffered":
-				n, _ := find(pat.Stmt("return int(_p.wpos - _p.rpos)"), nil)
-				chk("formula", n != nil, "buffered() = wpos - rpos")
+				sres := ring.RunSym(c, fn, &ring.Sym{})
+				v, why := ring.ReturnsFormula(sres, backing, map[string]int64{"wpos": 1, "rpos": -1})
+				tri("formula", v, why, "buffered() = wpos - rpos")
 			case "available":
-				n, _ := find(pat.Stmt("return int(_p.size + _p.rpos - _p.wpos)"), nil)
-				n2, _ := find(pat.Stmt("return int(_p.size - (_p.wpos - _p.rpos))"), nil)
-				chk("formula", n != nil || n2 != nil, "available() = size + rpos - wpos")
+				sres := ring.RunSym(c, fn, &ring.Sym{})
+				v, why := ring.ReturnsFormula(sres, backing, map[string]int64{"size": 1, "rpos": 1, "wpos": -1})
+				tri("formula", v, why, "available() = size + rpos - wpos")
 			case "rclose":
-				n, _ := find(pat.Stmt("_p._store = nil"), nil)
-				chk("drops-store", n != nil, "rclose drops the backing store so that later store operations fail with the closed-pipe error")
+				sres := ring.RunSym(c, fn, &ring.Sym{})
+				v, why := ring.DropsBacking(sres, backing)
+				tri("drops-store", v, why, "rclose drops the backing store so that later store operations fail with the closed-pipe error")
 			}
 		}
 	}
-}
-
-// resetWhenEmpty: 1 = both positions are set to 0 exactly where rpos == wpos is
-// established (in fn or in a method it calls on the same receiver), 0 = they are
-// reset under another condition or only one of them is, -1 = not found.
-func resetWhenEmpty(c *core.Ctx, fn *core.Fn) int {
-	info := fn.Pkg.TypesInfo
-	cands := []*core.Fn{fn}
-	core.Inspect(fn.Decl.Body, func(n ast.Node) bool {
-		if call, ok := n.(*ast.CallExpr); ok {
-			if f := core.CalleeFunc(info, call); f != nil && f.Pkg() != nil && f.Pkg().Path() == fn.Pkg.PkgPath {
-				if h := c.FnOf(f); h != nil && h.Decl.Recv != nil && h.Decl.Body != nil {
-					cands = append(cands, h)
-				}
-			}
-		}
-		return true
-	})
-	zeroes := func(n ast.Node, field string) bool {
-		as, ok := n.(*ast.AssignStmt)
-		if !ok || len(as.Lhs) != len(as.Rhs) {
-			return false
-		}
-		for i, l := range as.Lhs {
-			if sel, ok := ast.Unparen(l).(*ast.SelectorExpr); ok && sel.Sel.Name == field {
-				if v, ok := core.IntConst(info, as.Rhs[i]); ok && v == 0 {
-					return true
-				}
-			}
-		}
-		return false
-	}
-	for _, cand := range cands {
-		g := cfgq.Of(c.Program, cand)
-		rp := g.Points(func(n ast.Node) bool { return zeroes(n, "rpos") })
-		wp := g.Points(func(n ast.Node) bool { return zeroes(n, "wpos") })
-		if len(rp) == 0 && len(wp) == 0 {
-			continue
-		}
-		if len(rp) == 0 || len(wp) == 0 {
-			return 0
-		}
-		for _, p := range append(rp, wp...) {
-			ok, _ := g.OnlyViaFact(p, func(f cfgq.Fact) bool {
-				return pat.Expr("_p.rpos == _p.wpos").Match(info, f.Expr, nil) != nil && f.Val || pat.Expr("_p.rpos != _p.wpos").Match(info, f.Expr, nil) != nil && !f.Val
-			})
-			if !ok {
-				return 0
-			}
-		}
-		return 1
-	}
-	return -1
-}
-
-func findIf(info *types.Info, root ast.Node, cond *pat.Pattern, b pat.Binds) (*ast.IfStmt, bool) {
-	var hit *ast.IfStmt
-	core.Inspect(root, func(n ast.Node) bool {
-		if ifs, ok := n.(*ast.IfStmt); ok && hit == nil && cond.Match(info, ifs.Cond, b) != nil {
-			hit = ifs
-		}
-		return hit == nil
-	})
-	return hit, hit != nil
-}
-
-// closedGuard: first statement is `if p.<store> == nil { return 0, <f>(io.ErrClosedPipe) }`.
-func closedGuard(info *types.Info, body *ast.BlockStmt) bool {
-	if len(body.List) == 0 {
-		return false
-	}
-	ifs, ok := body.List[0].(*ast.IfStmt)
-	if !ok || pat.Expr("_p._s == nil").Match(info, ifs.Cond, nil) == nil {
-		return false
-	}
-	r, _ := pat.Stmt("return 0, _f(io.ErrClosedPipe)").Find(info, ifs.Body, nil)
-	return r != nil
 }
